@@ -104,6 +104,9 @@ type run struct {
 	blockTxs  map[*sim.MNode][][32]byte
 	step      int
 	lastFault string
+	nested    map[string]*nestedSpend
+	heavy     map[string]bool   // output scripts whose spend carries many sig-ops
+	undone    map[[32]byte]bool // transactions a disconnected block returned
 }
 
 var cfgOnce sync.Once
@@ -189,6 +192,9 @@ func (r *run) setup() error {
 		if len(bl.Txs) > 1 {
 			r.st.undoneTxs += len(bl.Txs) - 1
 			r.st.reorgWithPool = true
+			for _, t := range bl.Txs[1:] {
+				r.undone[t.Hash.Hash] = true
+			}
 		}
 		txpool.BlockUndone(bl)
 	}}
@@ -275,7 +281,8 @@ var hangBound = func() time.Duration {
 // runCase executes a history; the error is the first violated invariant (or engine disagreement).
 func runCase(c Case) (st *stats, err error) {
 	st = &stats{rejected: map[byte]int{}}
-	r := &run{c: c, st: st, built: map[[32]byte]*built{}, blockTxs: map[*sim.MNode][][32]byte{}}
+	r := &run{c: c, st: st, built: map[[32]byte]*built{}, blockTxs: map[*sim.MNode][][32]byte{},
+		nested: map[string]*nestedSpend{}, heavy: map[string]bool{}, undone: map[[32]byte]bool{}}
 	defer r.close()
 	defer r.harvestCounters()
 	// A history takes a second or two.  A generous bound turns an endless loop inside the pool (it would hold
@@ -410,6 +417,8 @@ func (r *run) exec(op Op) error {
 		return r.deepReorg(op)
 	case "ladder":
 		return r.ladder(op)
+	case "sigflood":
+		return r.sigFlood(op)
 	case "tick":
 		r.tick(op)
 	case "save":
@@ -487,7 +496,7 @@ func (r *run) candidates() (*cands, error) {
 	}
 	next := r.s.Tip.Idx.Height + 1
 	for k, c := range r.s.Tip.View {
-		if !r.s.B.Spendable(c.Script) {
+		if !r.spendable(c.Script) {
 			continue
 		}
 		ref := coinRef{k, c.Value, c.Script}
@@ -501,7 +510,7 @@ func (r *run) candidates() (*cands, error) {
 	}
 	for i := range pool {
 		for j, o := range pool[i].tx.Out {
-			if !r.s.B.Spendable(o.PkScript) {
+			if !r.spendable(o.PkScript) {
 				continue
 			}
 			k := consensus.OutKey(pool[i].id, uint32(j))
@@ -521,7 +530,7 @@ func (r *run) candidates() (*cands, error) {
 			continue
 		}
 		for j, o := range b.tx.Out {
-			if r.s.B.Spendable(o.PkScript) && o.Value > 0 {
+			if r.spendable(o.PkScript) && o.Value > 0 {
 				cd.held = append(cd.held, coinRef{consensus.OutKey(id, uint32(j)), o.Value, o.PkScript})
 			}
 		}
@@ -562,7 +571,7 @@ func (r *run) chainSpent() []coinRef {
 		for _, tx := range n.Block.Txs[1:] {
 			for _, in := range tx.In {
 				k := consensus.OutKey(in.PrevHash, in.PrevIndex)
-				if c, ok := n.Parent.View[k]; ok && r.s.B.Spendable(c.Script) {
+				if c, ok := n.Parent.View[k]; ok && r.spendable(c.Script) {
 					out = append(out, coinRef{k, c.Value, c.Script})
 				}
 			}
@@ -575,9 +584,48 @@ func (r *run) chainSpent() []coinRef {
 // ---------------------------------------------------------------------------------------------
 // building transactions (reference side only)
 
+// nestedSpend: how to spend a P2SH-wrapped P2WSH output (the env builder only nests one level).
+type nestedSpend struct{ program, wscript []byte }
+
+func (r *run) spendable(script []byte) bool {
+	return r.s.B.Spendable(script) || r.nested[string(script)] != nil
+}
+
+// heavyScript: an output whose redeem / witness script carries many sig-ops in a dead branch (OP_0 OP_IF ...
+// OP_ENDIF OP_1): 20..90 x "OP_16 OP_CHECKMULTISIG" (16 each when counted accurately) or a run of 20..90
+// OP_CHECKSIG; wrapped as P2SH (fam 13), P2WSH (fam 14) or P2SH-P2WSH (fam 15).  Spending one costs up to
+// 4*1440 (P2SH) or 1440 (witness) units of the block's 80000.
+func (r *run) heavyScript(o sim.OutSpec) []byte {
+	b := r.s.B
+	k := 20 + mod(o.N*13+o.Share, 71)
+	var inner []byte
+	if mod(o.N+o.Share, 3) == 0 {
+		inner = b.SigOps(k)
+	} else {
+		inner = b.MultiSigOps(k, 16)
+	}
+	var out []byte
+	switch mod(o.Fam, 16) {
+	case 13:
+		out = b.WrapP2SH(inner)
+	case 14:
+		out = b.WrapP2WSH(inner)
+	default:
+		prog := env.P2WSH(inner)
+		out = env.P2SH(prog)
+		r.nested[string(out)] = &nestedSpend{program: prog, wscript: inner}
+	}
+	r.heavy[string(out)] = true
+	return out
+}
+
 func (r *run) outScript(o sim.OutSpec) []byte {
 	b := r.s.B
 	n := int64(mod(o.N, 1000) + 17)
+	if f := mod(o.Fam, 16); f >= 13 {
+		return r.heavyScript(o)
+	}
+	o.Fam = mod(o.Fam, 16)
 	if r.s.Signed {
 		switch mod(o.Fam, 13) {
 		case 9:
@@ -781,7 +829,7 @@ func (r *run) buildTx(ts *TxSpec, cd *cands, forced *coinRef) *built {
 				for _, p := range cd.pool {
 					if conflicts[p.id] {
 						for j, o := range p.tx.Out {
-							if r.s.B.Spendable(o.PkScript) {
+							if r.spendable(o.PkScript) {
 								l = append(l, coinRef{consensus.OutKey(p.id, uint32(j)), o.Value, o.PkScript})
 							}
 						}
@@ -886,6 +934,11 @@ func (r *run) buildTx(ts *TxSpec, cd *cands, forced *coinRef) *built {
 	badScript := ts.Bad == "script" && r.s.B.Breakable(coins[len(coins)-1].script)
 	sign := func() {
 		for i, c := range coins {
+			if ns := r.nested[string(c.script)]; ns != nil {
+				tx.In[i].ScriptSig = env.Push(ns.program)
+				tx.In[i].Witness = [][]byte{ns.wscript}
+				continue
+			}
 			if !r.s.B.Spend(tx, i, c.script, !(badScript && i == len(coins)-1)) {
 				panic("c12: cannot build spend")
 			}
@@ -1065,6 +1118,9 @@ func (r *run) submit(b *built, path int, cd *cands) {
 	}
 	if !was && inPool(b.id) {
 		r.st.admitted++
+		if r.spendsHeavy(b.tx, cd) {
+			r.st.label([]string{"sigop_heavy_spend_admitted_peer", "sigop_heavy_spend_admitted_local", "sigop_heavy_spend_admitted_trusted"}[path])
+		}
 		if hasRelativeLock(b.tx) {
 			r.st.label("relative_locked_tx_admitted")
 			for _, in := range b.tx.In {
@@ -1080,6 +1136,23 @@ func (r *run) submit(b *built, path int, cd *cands) {
 			}
 		}
 	}
+}
+
+// spendsHeavy: some input spends an output of the sig-op-heavy families (looked up in chain, pool and what the
+// harness built).
+func (r *run) spendsHeavy(tx *wire.Tx, cd *cands) bool {
+	for _, in := range tx.In {
+		var script []byte
+		if c, ok := r.s.Tip.View[consensus.OutKey(in.PrevHash, in.PrevIndex)]; ok {
+			script = c.Script
+		} else if b := r.built[in.PrevHash]; b != nil && int(in.PrevIndex) < len(b.tx.Out) {
+			script = b.tx.Out[in.PrevIndex].PkScript
+		}
+		if r.heavy[string(script)] {
+			return true
+		}
+	}
+	return false
 }
 
 // series: "chain" (each transaction spends the previous one's first spendable output) and "flood" (N padded
@@ -1102,7 +1175,7 @@ func (r *run) series(op Op) error {
 		var forced *coinRef
 		if op.K == "chain" && prev != nil {
 			for j, o := range prev.tx.Out {
-				if r.s.B.Spendable(o.PkScript) && o.Value > 0 {
+				if r.spendable(o.PkScript) && o.Value > 0 {
 					forced = &coinRef{consensus.OutKey(prev.id, uint32(j)), o.Value, o.PkScript}
 					break
 				}
@@ -1425,7 +1498,9 @@ func (r *run) mine(op Op) error {
 		list = txpool.GetSortedMempoolRBF()
 	}
 	raws := make([][]byte, 0, len(list))
+	recorded := make([]uint64, 0, len(list))
 	for _, t := range list {
+		recorded = append(recorded, t.SigopsCost)
 		if t == nil || t.Tx == nil {
 			txpool.TxMutex.Unlock()
 			return fmt.Errorf("%s returned a nil entry", which)
@@ -1444,6 +1519,7 @@ func (r *run) mine(op Op) error {
 	var txs []*wire.Tx
 	var fees uint64
 	weight, sigops := 0, 0
+	recSigops := uint64(0)
 	resolve := func(tx *wire.Tx) ([]consensus.Coin, bool) {
 		coins := make([]consensus.Coin, len(tx.In))
 		for j, in := range tx.In {
@@ -1505,12 +1581,15 @@ func (r *run) mine(op Op) error {
 		if ok {
 			cost = consensus.TxSigOpCost(tx, coins, flags)
 		}
-		if sigops+cost > consensus.MaxBlockSigOpsCost-400 {
+		// the sig-op budget is kept with the costs the pool RECORDED, the way rpcapi.GetWork does it
+		if recSigops+recorded[i] > consensus.MaxBlockSigOpsCost {
 			r.st.minedPartial = true
+			r.st.label("block_capped_by_sigops")
 			break
 		}
 		weight += w
 		sigops += cost
+		recSigops += recorded[i]
 		if ok {
 			add(tx, coins)
 		} else {
@@ -1557,8 +1636,13 @@ func (r *run) mine(op Op) error {
 			if vin < vout || weight+b.tx.Weight() > extraBudget {
 				return false
 			}
+			cost := consensus.TxSigOpCost(b.tx, coins, flags)
+			if sigops+cost > consensus.MaxBlockSigOpsCost || recSigops+uint64(cost) > consensus.MaxBlockSigOpsCost {
+				return false
+			}
 			weight += b.tx.Weight()
-			sigops += consensus.TxSigOpCost(b.tx, coins, flags)
+			sigops += cost
+			recSigops += uint64(cost)
 			add(b.tx, coins)
 			included[b.id] = true
 			return true
@@ -1575,7 +1659,7 @@ func (r *run) mine(op Op) error {
 						// ... and, in the same block, a spender of one of its outputs (what an orphan waiting for
 						// this parent may want to spend too)
 						for j, o := range r.built[id].tx.Out {
-							if r.s.B.Spendable(o.PkScript) && o.Value > 0 {
+							if r.spendable(o.PkScript) && o.Value > 0 {
 								c := coinRef{consensus.OutKey(id, uint32(j)), o.Value, o.PkScript}
 								ts := &TxSpec{Ins: []InSel{{}}, Outs: []sim.OutSpec{{Fam: 0, Share: 1}}, Rate: 3}
 								if b := r.buildTx(ts, cd, &c); b != nil && tryAdd(b) {
@@ -1738,4 +1822,58 @@ func (r *run) deepReorg(op Op) error {
 	}
 	r.st.label("deep_reorg")
 	return r.check(op)
+}
+
+// sigFlood: one transaction with N P2SH outputs whose redeem script holds 90 x "OP_16 OP_CHECKMULTISIG" (5760
+// units of sig-op cost per spend), then N transactions each spending one of them through op.Path - together more
+// than a block's 80000.  A "mine" that follows has to stop at the sig-op budget, which it keeps with the RECORDED
+// costs (like rpcapi.GetWork).
+func (r *run) sigFlood(op Op) error {
+	n := op.N
+	if n < 2 {
+		n = 2
+	}
+	if n > 30 {
+		n = 30
+	}
+	cd, err := r.candidates()
+	if err != nil {
+		return err
+	}
+	fan := &TxSpec{Ins: []InSel{{Src: 0, Sel: op.Pick}}, Rate: 5}
+	for i := 0; i < n; i++ {
+		fan.Outs = append(fan.Outs, sim.OutSpec{Fam: 13 + mod(op.Arg, 3), Share: 5, N: 5})
+	}
+	f := r.buildTx(fan, cd, nil)
+	if f == nil {
+		return nil
+	}
+	r.submit(f, 0, cd)
+	if err := r.check(op); err != nil {
+		return err
+	}
+	if !inPool(f.id) {
+		return nil
+	}
+	for j, o := range f.tx.Out {
+		if !r.heavy[string(o.PkScript)] || o.Value == 0 {
+			continue
+		}
+		cd, err = r.candidates()
+		if err != nil {
+			return err
+		}
+		c := coinRef{consensus.OutKey(f.id, uint32(j)), o.Value, o.PkScript}
+		ts := &TxSpec{Ins: []InSel{{}}, Outs: []sim.OutSpec{{Fam: 0, Share: 1}}, Rate: 2 + mod(j, 6)}
+		b := r.buildTx(ts, cd, &c)
+		if b == nil {
+			continue
+		}
+		r.submit(b, op.Path, cd)
+		if err := r.check(op); err != nil {
+			return fmt.Errorf("after spend %d of the series: %v", j, err)
+		}
+	}
+	r.st.label("sigop_flood")
+	return nil
 }
